@@ -12,6 +12,7 @@ import (
 // failed acquisition (shared by C07 and C13).
 func (c *Ctx) remoteHaltFamily(prefix string) {
 	p := c.P
+	c.clientStatusFamily(prefix+"/client", "Commit", "AcquireHaltLock", "ReleaseHaltLock")
 	field := p.Writes("litefs.DB.remoteHaltLock")
 	c.OnlyIn(prefix+"/owners", field, []string{pat("litefs.NewDB"), pat("litefs.(*DB).AcquireRemoteHaltLock"), pat("litefs.(*DB).unsetRemoteHaltLock")}, 3,
 		"DB.remoteHaltLock is written only by NewDB, AcquireRemoteHaltLock and unsetRemoteHaltLock", "any other writer grants or keeps write authority outside the halt protocol")
@@ -79,4 +80,39 @@ func (c *Ctx) primaryOnlyHandlers(prefix string) {
 	c.Guarded(prefix+"/handlePostTx", "http.(*Server).handlePostTx", p.PlainCalls("litefs.(*DB).PinHaltLock", "litefs.(*DB).WriteLTXFileAt", "litefs.(*DB).ApplyLTXNoLock"), gs(isPrimary), 3,
 		"POST /tx pins, copies and applies a forwarded transaction only when Store.IsPrimary() answered true", "a node without a lease that applies and acknowledges a forwarded transaction moves its position outside the primary's stream; the sender believes the transaction is committed")
 	c.Expect(prefix+"/is-primary-def", strings.Join(c.returnsOf("litefs.(*Store).IsPrimary"), ";"), pat("litefs.(*Store).isPrimary(p0)"), "IsPrimary() is the locked read of isPrimary()", "")
+}
+
+// clientStatusFamily: the HTTP client methods named report success (a nil
+// error result) only for status 200 of the response they received; every
+// other status - in particular the 409 the primary uses to refuse - is an
+// error for the caller, which otherwise acts on a refusal as on a grant.
+func (c *Ctx) clientStatusFamily(prefix string, methods ...string) {
+	p := c.P
+	for _, m := range methods {
+		fname := "http.(*Client)." + m
+		fn := c.F(fname)
+		if fn == nil {
+			c.fail(prefix+"/"+m+"/success-only-200", "K2 Guarded", "the client method exists", "", "function "+fname+" not found", 0)
+			continue
+		}
+		nilErr := func(in ssa.Instruction) bool {
+			r, ok := in.(*ssa.Return)
+			if !ok || len(r.Results) == 0 || (r.Block().Index != 0 && len(r.Block().Preds) == 0) {
+				return false
+			}
+			return p.Render(returnedValue(r, len(r.Results)-1)) == "nil"
+		}
+		c.Guarded(prefix+"/"+m+"/success-only-200", fname, nilErr,
+			gs(G(`^\(200 == net/http\.\(\*Client\)\.Do\(.*\)#0\.StatusCode\)$`, true)), 1,
+			"Client."+m+" returns a nil error only when the response status is 200", "a refusal (409/503/...) taken for success lets the caller proceed as if the primary had agreed")
+	}
+}
+
+// ckptCopiesAll: the checkpoint copies every page of the committed offset map
+// (no iteration of the copy loop skips writeDatabasePage), shared by C05, C10, C17.
+func (c *Ctx) ckptCopiesAll(prefix string) {
+	c.EveryIteration(prefix+"/every-committed-page-copied", "litefs.(*DB).CheckpointNoLock", pat("litefs.(*DB).readWALPageOffsets(p0, @@)#0"),
+		c.P.PlainCalls("litefs.(*DB).writeDatabasePage"),
+		"every iteration over the committed page-offset map writes that page into the database file (or returns an error)",
+		"the WAL is truncated afterwards: a page skipped here keeps an older committed version while position and checksum cache move on - snapshots then mix two positions")
 }
